@@ -22,7 +22,7 @@ RULE = ("for every message type of the corpus: (1) a fresh message reads every f
         "emitted; optional / oneof / wrapper: emitted when set, default included; plain sub-message: emitted iff "
         "serialized_on_wire); after decoding the same bytes, betterproto's presence report (is not None / is_set / "
         "which_one_of / serialized_on_wire) must equal google.protobuf's HasField / WhichOneof; (3) random pairs and "
-        "triples of fields. distinct = distinct (type, field set, value classes, route).")
+        "triples of fields. is_set is compared for optional fields and oneof members; never-set fields are also spelled as JSON null on the from_dict route; after each type's workload a fresh message must be fresh again although lazily created defaults of other objects were used in place. distinct = distinct (type, field set, value classes, route).")
 ASSUMPTIONS = [
     "is_set() is compared for proto3-optional fields and oneof members (for other fields lazy default materialisation flips it; proto3 defines no presence there)",
     "a non-optional Timestamp/Duration has no presence in betterproto (documented epoch / zero default): only its value is compared",
